@@ -11,9 +11,16 @@ import (
 	"verif/harness/internal/gn"
 )
 
-// Op is one message a scripted target sends.
+// Up is one update of a notification that carries several (atomic, group).
+type Up struct {
+	Path []gn.Elem `json:"path"`
+	Val  gn.Val    `json:"val"`
+	Pad  int       `json:"pad,omitempty"`
+}
+
+// Op is one step of a scripted target: a message it sends, or something it does to its stream.
 type Op struct {
-	// Kind: update delete sync
+	// Kind: update delete sync multi - atomic group fill - break await wait
 	Kind    string    `json:"kind"`
 	Origin  string    `json:"origin,omitempty"` // prefix origin ("" = none: the collector files it under "openconfig")
 	Prefix  []gn.Elem `json:"prefix,omitempty"`
@@ -21,6 +28,23 @@ type Op struct {
 	Element bool      `json:"element,omitempty"` // deprecated path encoding
 	Val     gn.Val    `json:"val,omitempty"`
 	Cut     int       `json:"cut,omitempty"` // multi: the delete path is the first Cut elements of prefix+path
+	Pad     int       `json:"pad,omitempty"` // the string value is lengthened by Pad bytes when sent
+	// atomic: ONE notification with the atomic flag, Prefix and these updates (the device's container);
+	// group: one plain notification with several updates below Prefix.
+	Ups []Up `json:"ups,omitempty"`
+	// fill: N leaves fill/e[id=i]/v = "f<Ver>.<i>", 250 per notification; wait: N milliseconds; await: which pause (1-based)
+	N   int `json:"n,omitempty"`
+	Ver int `json:"ver,omitempty"`
+	// break: the target's stream ends - Via "error" (the RPC returns a status), "conn" (the transport is closed),
+	// "rpc" (the collector is asked to reconnect through its Collector service). When the collector subscribes
+	// again the target first reports its current state, then a sync_response, then goes on with the script.
+	// LoseMod>0: the units (leaves, containers) whose rank in key order is LoseRem modulo LoseMod are gone when it comes back.
+	Via     string `json:"via,omitempty"`
+	LoseMod int    `json:"lose_mod,omitempty"`
+	LoseRem int    `json:"lose_rem,omitempty"`
+	// await: the script goes on when observer Obs reached Event (start first sync pause), or after a bounded wait
+	Obs   int    `json:"obs,omitempty"`
+	Event string `json:"event,omitempty"`
 }
 
 // Target is one configured target and its stream.
@@ -31,12 +55,30 @@ type Target struct {
 	Ops     []Op   `json:"ops"`
 }
 
+// Pause makes an observer a slow consumer for a while. Script positions count the ops a target has STARTED.
+type Pause struct {
+	From    int `json:"from"`               // the first notification handled once the clock target started From ops blocks the handler ...
+	Until   int `json:"until"`              // ... until it started Until ops (or finished; or a wall-clock bound passed),
+	SleepMs int `json:"sleep_ms,omitempty"` // and then for this long
+}
+
+// Observer is a client-library STREAM subscription through the collector that lives while the scripts play.
+type Observer struct {
+	Scope   int     `json:"scope"`              // index of the target subscribed to; -1: "*"
+	Clock   int     `json:"clock"`              // index of the target whose script positions Start and Pauses refer to
+	Start   int     `json:"start"`              // subscribes once that target started Start ops,
+	DelayUs int     `json:"delay_us,omitempty"` // plus this long
+	Slow    bool    `json:"slow,omitempty"`     // static 64KB HTTP/2 windows: a handler that blocks stops the sender after a bounded amount of data
+	Pauses  []Pause `json:"pauses,omitempty"`
+}
+
 // Scenario is a collector configuration plus the streams of its targets.
 type Scenario struct {
-	Targets  []Target `json:"targets"`
-	Servers  int      `json:"servers"`
-	Requests int      `json:"requests"`
-	Subtree  int      `json:"subtree"` // CLI: which leaf's top-level subtree is queried besides the whole target
+	Targets   []Target   `json:"targets"`
+	Servers   int        `json:"servers"`
+	Requests  int        `json:"requests"`
+	Subtree   int        `json:"subtree"` // CLI: which leaf's top-level subtree is queried besides the whole target
+	Observers []Observer `json:"observers,omitempty"`
 }
 
 var names = []string{"a", "b", "c", "iface", "state"}
@@ -103,106 +145,261 @@ func opKey(o Op) []string {
 	return append(k, gn.IndexOfElems(o.Path, o.Element)...)
 }
 
-func genTarget(t *rapid.T, i, servers, requests int) Target {
-	tg := Target{Name: fmt.Sprintf("dev%d", i), Server: rapid.IntRange(0, servers-1).Draw(t, "server"), Request: rapid.IntRange(0, requests-1).Draw(t, "request")}
-	stored := map[string]bool{}
-	conflict := func(k []string) bool {
-		for s := range stored {
-			p := gn.Unkey(s)
-			if gn.IsProperPrefix(p, k) || gn.IsProperPrefix(k, p) {
-				return true
+// ---- one target's script, generated against the reference interpretation of what was generated so far ----
+
+type tgen struct {
+	t      *rapid.T
+	ops    []Op
+	m      *model // the device's state after ops
+	groups []Op   // group notifications sent so far (candidates for a re-send)
+	serial int    // makes values that must differ from what is stored
+}
+
+func newTgen(t *rapid.T) *tgen { return &tgen{t: t, m: newModel()} }
+
+func (g *tgen) emit(o Op) {
+	g.ops = append(g.ops, o)
+	g.m.apply(o, nil)
+}
+
+// conflict: storing k would put a leaf above or below a stored unit (the leaf set stays
+// prefix-free by construction; conflicts belong to C02/C09).
+func (g *tgen) conflict(k []string) bool {
+	for s := range g.m.units {
+		p := gn.Unkey(s)
+		if gn.IsProperPrefix(p, k) || gn.IsProperPrefix(k, p) {
+			return true
+		}
+	}
+	return false
+}
+
+func (g *tgen) containers() []string {
+	var ks []string
+	for _, k := range g.m.keys() {
+		if g.m.units[k].Kind == "atomic" {
+			ks = append(ks, k)
+		}
+	}
+	return ks
+}
+
+// deleteAddressesWholeUnits: a delete must remove an atomic container completely or not at all
+// (the collector keeps it as one leaf at its prefix; a device cannot drop part of an atomic group).
+func (g *tgen) deleteAddressesWholeUnits(pat []string) bool {
+	for _, ck := range g.containers() {
+		whole := gn.Matches(pat, gn.Unkey(ck))
+		for _, up := range g.m.units[ck].Ups {
+			if gn.Matches(pat, append(gn.Unkey(ck), gn.IndexOfElems(up.Path, false)...)) != whole {
+				return false
 			}
 		}
+	}
+	return true
+}
+
+func keyToOp(kind string, leaf []string) Op {
+	o := Op{Kind: kind, Origin: leaf[0]}
+	if o.Origin == "openconfig" {
+		o.Origin = ""
+	}
+	for _, e := range leaf[1:] {
+		o.Path = append(o.Path, gn.Elem{Name: e})
+	}
+	return o
+}
+
+// delete addresses an existing unit exactly, its parent subtree, or through a glob.
+func (g *tgen) delete() {
+	t := g.t
+	ks := g.m.keys()
+	if len(ks) == 0 {
+		return
+	}
+	leaf := gn.Unkey(ks[rapid.IntRange(0, len(ks)-1).Draw(t, "dwhich")])
+	p := leaf[1:]
+	switch rapid.IntRange(0, 3).Draw(t, "dshape") {
+	case 1:
+		if len(p) > 1 {
+			p = p[:len(p)-1]
+		}
+	case 2:
+		p = append([]string{}, p...)
+		p[rapid.IntRange(0, len(p)-1).Draw(t, "globat")] = "*"
+	case 3:
+		p = []string{"*"}
+	}
+	o := keyToOp("delete", append([]string{leaf[0]}, p...))
+	if !g.deleteAddressesWholeUnits(opKey(o)) {
+		return
+	}
+	g.emit(o)
+}
+
+// update writes a new plain leaf, overwrites a stored one, or does so inside a "replace" notification.
+func (g *tgen) update() {
+	t := g.t
+	o := Op{Kind: "update", Origin: rapid.SampledFrom([]string{"", "", "oc2"}).Draw(t, "origin"), Element: rapid.IntRange(0, 5).Draw(t, "element") == 0}
+	o.Prefix = genElems(t, 0, 1, false)
+	o.Path = genElems(t, 1, 2, false)
+	if ks := g.m.keys(); rapid.IntRange(0, 2).Draw(t, "again") == 0 && len(ks) > 0 {
+		// overwrite an existing leaf with a new value (a container: send it again)
+		k := ks[rapid.IntRange(0, len(ks)-1).Draw(t, "which")]
+		if g.m.units[k].Kind == "atomic" {
+			g.resendAtomic(k)
+			return
+		}
+		o = keyToOp("update", gn.Unkey(k))
+	}
+	o.Val = genVal(t)
+	k := opKey(o)
+	if g.conflict(k) {
+		return
+	}
+	if u := g.m.units[gn.Key(k)]; u != nil && u.Kind == "atomic" {
+		return
+	}
+	if !o.Element && rapid.IntRange(0, 4).Draw(t, "replace") == 0 {
+		// a "replace": the same notification deletes a subtree that covers this update
+		o.Kind = "multi"
+		o.Cut = rapid.IntRange(1, len(o.Prefix)+len(o.Path)).Draw(t, "cut")
+		if !g.deleteAddressesWholeUnits(delKeyOfMulti(o)) {
+			return
+		}
+	}
+	g.emit(o)
+}
+
+func (g *tgen) ups(base []string, min, max int) []Up {
+	t := g.t
+	var out []Up
+	var idx [][]string
+	for i := rapid.IntRange(min, max).Draw(t, "nups"); i > 0; i-- {
+		u := Up{Path: genElems(t, 1, 2, false), Val: genVal(t)}
+		k := gn.IndexOfElems(u.Path, false)
+		ok := true
+		for _, p := range idx {
+			if gn.Key(p) == gn.Key(k) || gn.IsProperPrefix(p, k) || gn.IsProperPrefix(k, p) {
+				ok = false
+			}
+		}
+		if base != nil {
+			full := append(append([]string{}, base...), k...)
+			if u := g.m.units[gn.Key(full)]; g.conflict(full) || (u != nil && u.Kind == "atomic") {
+				ok = false
+			}
+		}
+		if ok {
+			idx = append(idx, k)
+			out = append(out, u)
+		}
+	}
+	return out
+}
+
+// atomic creates a container: one atomic notification with 2-6 updates below a prefix with at least one element.
+func (g *tgen) atomic() bool {
+	t := g.t
+	o := Op{Kind: "atomic", Origin: rapid.SampledFrom([]string{"", "", "oc2"}).Draw(t, "origin"), Prefix: genElems(t, 1, 2, false)}
+	k := contKey(o)
+	if g.conflict(k) || g.m.units[gn.Key(k)] != nil {
 		return false
 	}
+	o.Ups = g.ups(nil, 2, 6)
+	if len(o.Ups) < 2 {
+		return false
+	}
+	g.emit(o)
+	return true
+}
+
+// resendAtomic sends a stored container again, same updates, some values changed — mostly not the first one's.
+func (g *tgen) resendAtomic(k string) {
+	t := g.t
+	old := g.m.units[k]
+	o := *old
+	o.Ups = append([]Up{}, old.Ups...)
+	for i := range o.Ups {
+		odds := 1 // every other update changes ...
+		if i == 0 {
+			odds = 3 // ... the first one rarely: what else a coalesced delivery carries is the point
+		}
+		if rapid.IntRange(0, odds).Draw(t, "achange") == 0 {
+			o.Ups[i].Val = genVal(t)
+			if rapid.Bool().Draw(t, "aserial") {
+				g.serial++
+				o.Ups[i].Val = gn.Val{Kind: "string", S: fmt.Sprintf("v%d", g.serial)}
+			}
+		}
+	}
+	g.emit(o)
+}
+
+// group sends one plain notification with several updates, or sends an earlier one again with some values changed.
+func (g *tgen) group() {
+	t := g.t
+	if len(g.groups) > 0 && rapid.Bool().Draw(t, "gresend") {
+		old := g.groups[rapid.IntRange(0, len(g.groups)-1).Draw(t, "gwhich")]
+		o := old
+		o.Ups = append([]Up{}, old.Ups...)
+		for i := range o.Ups {
+			if rapid.Bool().Draw(t, "gchange") {
+				g.serial++
+				o.Ups[i].Val = gn.Val{Kind: "string", S: fmt.Sprintf("g%d", g.serial)}
+			}
+			full := opKey(Op{Origin: o.Origin, Prefix: o.Prefix, Path: o.Ups[i].Path})
+			if u := g.m.units[gn.Key(full)]; g.conflict(full) || (u != nil && u.Kind == "atomic") {
+				return
+			}
+		}
+		g.emit(o)
+		return
+	}
+	o := Op{Kind: "group", Origin: rapid.SampledFrom([]string{"", "", "oc2"}).Draw(t, "origin"), Prefix: genElems(t, 0, 2, false)}
+	o.Ups = g.ups(contKey(o), 2, 5)
+	if len(o.Ups) < 2 {
+		return
+	}
+	g.groups = append(g.groups, o)
+	g.emit(o)
+}
+
+// step appends (at most) one randomly chosen message.
+func (g *tgen) step() {
+	t := g.t
+	if rapid.IntRange(0, 3).Draw(t, "isdelete") == 0 && len(g.m.units) > 0 {
+		g.delete()
+		return
+	}
+	switch rapid.IntRange(0, 9).Draw(t, "shape") {
+	case 0:
+		if cs := g.containers(); len(cs) > 0 && rapid.IntRange(0, 2).Draw(t, "aresend") > 0 {
+			g.resendAtomic(cs[rapid.IntRange(0, len(cs)-1).Draw(t, "awhich")])
+		} else {
+			g.atomic()
+		}
+	case 1:
+		g.group()
+	default:
+		g.update()
+	}
+}
+
+func genTarget(t *rapid.T, i, servers, requests int) Target {
+	tg := Target{Name: fmt.Sprintf("dev%d", i), Server: rapid.IntRange(0, servers-1).Draw(t, "server"), Request: rapid.IntRange(0, requests-1).Draw(t, "request")}
+	g := newTgen(t)
 	n := rapid.IntRange(2, 10).Draw(t, "nops")
 	syncAt := rapid.IntRange(0, n).Draw(t, "syncat")
 	for j := 0; j < n; j++ {
 		if j == syncAt {
-			tg.Ops = append(tg.Ops, Op{Kind: "sync"})
+			g.emit(Op{Kind: "sync"})
 		}
-		if rapid.IntRange(0, 3).Draw(t, "isdelete") == 0 && len(stored) > 0 {
-			// delete an existing leaf exactly, its parent subtree, or through a glob
-			var ks []string
-			for s := range stored {
-				ks = append(ks, s)
-			}
-			sortStrings(ks)
-			leaf := gn.Unkey(ks[rapid.IntRange(0, len(ks)-1).Draw(t, "dwhich")])
-			o := Op{Kind: "delete", Origin: leaf[0]}
-			if o.Origin == "openconfig" {
-				o.Origin = ""
-			}
-			p := leaf[1:]
-			switch rapid.IntRange(0, 3).Draw(t, "dshape") {
-			case 1:
-				if len(p) > 1 {
-					p = p[:len(p)-1]
-				}
-			case 2:
-				p = append([]string{}, p...)
-				p[rapid.IntRange(0, len(p)-1).Draw(t, "globat")] = "*"
-			case 3:
-				p = []string{"*"}
-			}
-			for _, e := range p {
-				o.Path = append(o.Path, gn.Elem{Name: e})
-			}
-			tg.Ops = append(tg.Ops, o)
-			pat := opKey(o)
-			for s := range stored {
-				if gn.Matches(pat, gn.Unkey(s)) {
-					delete(stored, s)
-				}
-			}
-			continue
-		}
-		o := Op{Kind: "update", Origin: rapid.SampledFrom([]string{"", "", "oc2"}).Draw(t, "origin"), Element: rapid.IntRange(0, 5).Draw(t, "element") == 0}
-		o.Prefix = genElems(t, 0, 1, false)
-		o.Path = genElems(t, 1, 2, false)
-		if rapid.IntRange(0, 2).Draw(t, "again") == 0 && len(stored) > 0 {
-			// overwrite an existing leaf with a new value
-			var ks []string
-			for s := range stored {
-				ks = append(ks, s)
-			}
-			sortStrings(ks)
-			leaf := gn.Unkey(ks[rapid.IntRange(0, len(ks)-1).Draw(t, "which")])
-			o.Origin, o.Element, o.Prefix, o.Path = leaf[0], false, nil, nil
-			if o.Origin == "openconfig" {
-				o.Origin = ""
-			}
-			for _, e := range leaf[1:] {
-				o.Path = append(o.Path, gn.Elem{Name: e})
-			}
-		}
-		o.Val = genVal(t)
-		k := opKey(o)
-		if conflict(k) {
-			continue // keep the leaf set prefix-free (conflicts belong to C02/C09)
-		}
-		if !o.Element && rapid.IntRange(0, 4).Draw(t, "replace") == 0 {
-			// a "replace": the same notification deletes a subtree that covers this update
-			all := len(o.Prefix) + len(o.Path)
-			o.Kind = "multi"
-			o.Cut = rapid.IntRange(1, all).Draw(t, "cut")
-			origin := o.Origin
-			if origin == "" {
-				origin = "openconfig"
-			}
-			pat := append([]string{origin}, gn.IndexOfElems(append(append([]gn.Elem{}, o.Prefix...), o.Path...)[:o.Cut], false)...)
-			for s := range stored {
-				if gn.Matches(pat, gn.Unkey(s)) {
-					delete(stored, s)
-				}
-			}
-		}
-		stored[gn.Key(k)] = true
-		tg.Ops = append(tg.Ops, o)
+		g.step()
 	}
 	if syncAt >= n {
-		tg.Ops = append(tg.Ops, Op{Kind: "sync"})
+		g.emit(Op{Kind: "sync"})
 	}
+	tg.Ops = g.ops
 	return tg
 }
 
